@@ -8,7 +8,7 @@
 namespace Frugal.Skeleton
 def decoder : String := "ccc4122215142eb0a0ebde38"
 def encoder : String := "5cbdaefa998ed87261c39697"
-def resolver : String := "fc893de27c26c5f74381c563"
+def resolver : String := "7421c925da242e28e65a020f"
 /-- full text (not only control structure) of `structDesc`, `tField`, `tType`, `fromDefsFields`,
     `fromDefsField`, `GetField`, `newTType`: the descriptor tables every codec theorem takes for granted -/
 def descTable : String := "cbfebd4eaff63fd247cc0a76"
